@@ -295,6 +295,10 @@ def main(argv=None):
                        spec.get("case_timeout", 120.0),
                        chunk_min=spec.get("chunk_min", 8))
 
+    if os.environ.get("VERIF_DUMP"):
+        with open(os.environ["VERIF_DUMP"], "w") as fh:
+            for r in results:
+                fh.write(json.dumps({"case": by_id[r["id"]], "result": r}, default=str) + "\n")
     # ---- aggregate -----------------------------------------------------
     from vf import findings as F
     known = [k for k in load_known() if k.get("property") == pid]
